@@ -1008,12 +1008,27 @@ pub mod verif_hooks {
     /// (`try_recv() == Err(Closed)`) exactly like the future returned by `flush_async`.
     pub fn send_flush() -> tokio::sync::oneshot::Receiver<()> {
         let (channel, receiver) = tokio::sync::oneshot::channel();
+        // under the solver: the model queue (read by the `try_recv` stub); in a native replay of a
+        // counterexample (`--cfg verif_native`, no stubs): the tracker's real channel
+        #[cfg(not(verif_native))]
         #[allow(static_mut_refs)]
         unsafe {
             MODEL_FLUSH_QUEUE.push(FlushSignal { channel });
         }
+        #[cfg(verif_native)]
+        #[allow(static_mut_refs)]
+        unsafe {
+            NATIVE_SENDER
+                .as_ref()
+                .expect("Tracker::new() first")
+                .send(FlushSignal { channel })
+                .ok();
+        }
         receiver
     }
+
+    #[cfg(verif_native)]
+    static mut NATIVE_SENDER: Option<std::sync::mpsc::Sender<FlushSignal>> = None;
 
     pub struct Tracker {
         tracker: WakerTracker,
@@ -1023,6 +1038,10 @@ pub mod verif_hooks {
     impl Tracker {
         pub fn new() -> Self {
             let (tx, rx) = std::sync::mpsc::channel();
+            #[cfg(verif_native)]
+            unsafe {
+                NATIVE_SENDER = Some(tx.clone());
+            }
             Tracker {
                 tracker: WakerTracker::new(rx),
                 _keep_sender: tx,
